@@ -222,6 +222,12 @@ theorem prefix_trace (b : Builder) (p : Str) (u : StrSpan) (sp : Span) :
     exact h.2.symm
   | ok us =>
     dsimp only
+    by_cases hres : reservedDecl p us = true
+    · simp only [hres, if_true]
+      refine ⟨fun b' h => (by cases h), fun e' env' h => ?_⟩
+      simp only [Step.err.injEq] at h
+      rw [← h.2]; rfl
+    simp only [hres, if_false, Bool.false_eq_true]
     cases b.eb with
     | none => exact ⟨fun b' h => (by cases h), fun e env' h => by cases h⟩
     | some eb =>
@@ -392,9 +398,14 @@ theorem step_trace (b : Builder) (t : Token) :
     simp only [Builder.step, Step.ok.injEq] at h
     rw [← h]; rfl
   | pi target content sp =>
-    refine ⟨fun b' h => ?_, fun e env' h => by cases h⟩
-    simp only [Builder.step, Step.ok.injEq] at h
-    rw [← h, processingInstruction_env]; rfl
+    simp only [Builder.step, Builder.stepRegs]
+    split
+    · refine ⟨fun b' h => (by cases h), fun e' env' h => ?_⟩
+      simp only [Step.err.injEq] at h
+      rw [← h.2]; rfl
+    · refine ⟨fun b' h => ?_, fun e env' h => by cases h⟩
+      simp only [Step.ok.injEq] at h
+      rw [← h, processingInstruction_env]; rfl
   | declaration version enc sa sp =>
     simp only [Builder.step, Builder.stepRegs]
     split
